@@ -1216,9 +1216,9 @@ func (q sreq) specQueries() (qs [][]string, valid bool) {
 	valid = true
 	pre := model.IndexPath(q.Prefix.pb(q.Target))
 	for _, s := range q.Subs {
-		if s.Nil {
-			continue
-		}
+		// A subscription without a path selects the prefix itself — that is what
+		// its snapshot is taken of (path.CompletePath), and "every leaf that a
+		// query for that path would return is also streamed" (D26).
 		if (q.Prefix.Origin != "" && s.Origin != "") || (s.Origin != "" && len(pre) > 0) {
 			valid = false
 			continue
@@ -1723,9 +1723,6 @@ func modeServer(r *vlib.Run) {
 				var snap [][]string
 				snapOK := true
 				for _, s := range ls.req.Subs {
-					if s.Nil {
-						continue
-					}
 					fp, err := path.CompletePath(ls.req.Prefix.pb(ls.req.Target), s.pb(""))
 					if err != nil {
 						snapOK = false
